@@ -9,8 +9,8 @@ VERIF = os.path.dirname(os.path.dirname(os.path.abspath(__file__)))
 REPO = os.environ.get("VERIF_REPO", "/repo")
 SPEC = os.path.join(VERIF, "spec")
 HARNESS = os.path.join(VERIF, "harness")
-WORKROOT = os.path.join(VERIF, ".work")
-REPLAYS = os.path.join(VERIF, ".work", "replays")
+WORKROOT = os.path.join(VERIF, "_work")   # no dot: the controller derives map file names by replacing the first "." of the full path
+REPLAYS = os.path.join(VERIF, "_work", "replays")
 TLA_CP = "/opt/veriftools/tla/tla2tools.jar:/opt/veriftools/tla/CommunityModules-deps.jar"
 NCPU = os.cpu_count() or 4
 
